@@ -59,7 +59,7 @@ func judgeBytes(r *mon.Rec, src string, b []byte) {
 			r.Violate("C19:accepts-malformed:"+res.Why, fmt.Sprintf("library decodes a malformed name list (%s) as %d names (first: %.60q)", res.Why, len(l.Labels), first(l.Labels)), rp)
 			return
 		}
-		r.Shape("malformed:"+res.Why, true)
+		r.Shape("malformed:"+res.Why+lenClass(b)+fmt.Sprint(" firstbyte=", len(b) > 0 && b[0] < 64), true)
 		return
 	}
 	if err != nil {
@@ -74,7 +74,23 @@ func judgeBytes(r *mon.Rec, src string, b []byte) {
 		r.Violate("C19:unmodified-reencoding-differs", "a parsed, unmodified label set does not re-encode to exactly the parsed bytes", rp)
 		return
 	}
-	shape := fmt.Sprintf("names n=%d ptr=%d partial=%v root=%v", min(len(res.Names), 4), min(res.Pointers, 3), res.Partial, hasRoot(res.Names))
+	maxl, nl := 0, 0
+	for _, n := range res.Names {
+		for _, l := range strings.Split(n, ".") {
+			maxl = max(maxl, len(l))
+			nl++
+		}
+	}
+	mlc := 0
+	switch {
+	case maxl >= 63:
+		mlc = 3
+	case maxl >= 8:
+		mlc = 2
+	case maxl >= 2:
+		mlc = 1
+	}
+	shape := fmt.Sprintf("names n=%d labels=%d ptr=%d partial=%v root=%v maxlabel=%d", min(len(res.Names), 8), min(nl, 12), min(res.Pointers, 3), res.Partial, hasRoot(res.Names), mlc)
 	r.Shape(shape+lenClass(b), len(res.Names) >= 2 || res.Pointers > 0 || res.Partial)
 	if res.Pointers > 0 && r.NSamples() < 3 && len(b) < 40 {
 		r.Sample(map[string]any{"src": src, "bytes": mon.Hex(b), "names": res.Names, "pointers": res.Pointers})
